@@ -124,6 +124,16 @@ def r8(cx):
              "still occupied behind an earlier, slower commit; a few failing commits then overflow the 8-slot queue and the next commit panics" % (len(bad), b.where(bad[0]) if bad else "-"))
 
 
+def _clears_flag_on_drop(f, ty):
+    """the type's own Drop impl stores `false` into an atomic"""
+    base = ty.split("<")[0]
+    for db in f.scan_bodies():
+        if db.name == "drop" and db.impl_trait and db.impl_trait.endswith("Drop") and (db.self_ty or "").split("<")[0] == base:
+            if any(x.primary.endswith("Atomic::store") and len(x.args) > 1 and const_value(x.args[1]) in (0, "0", False) for x in db.calls):
+                return True
+    return False
+
+
 @rule("C17", "C17.R9", "no lost wake-up: a `running`-gated notify is paired with a re-check after the flag is cleared")
 def r9(cx):
     """`wake_up_memtable()` does not notify while the flush task's `running` flag is set.  The task decides that there is no
@@ -149,6 +159,9 @@ def r9(cx):
     n = 0
     for cb in tasks:
         stores = [c for c in cb.calls if c.bb in cb.live and c.primary.endswith("::store") and "running" in origin_of_operand(cb, c.args[0]).upvar_names and len(c.args) > 1 and const_value(c.args[1]) == 0]
+        # ... or the flag is cleared by dropping a guard whose destructor stores `false` (explicit `drop(guard)` on the normal path)
+        stores += [c for c in cb.calls if c.bb in cb.live and c.primary in ("std::mem::drop", "core::mem::drop") and c.args and c.args[0][0] in ("c", "m")
+                   and _clears_flag_on_drop(f, cb.local_ty(c.args[0][1][0]))]
         waits = [c for c in cb.calls if c.bb in cb.live and c.primary.endswith("Notify::notified")]
         if not stores or not waits:
             continue
@@ -494,3 +507,48 @@ def r10(cx):
         cx.check(bool(lv), "the memtable task notifies the level task", "flush-no-level-wake", cb.where(),
                  "the memtable flush task never wakes the level compaction task: L0 grows to the stall threshold and nothing compacts it")
     cx.floor("memtable task loops", n, 1)
+
+
+@rule("C17", "C17.R11", "a flag that close() polls without a time limit is cleared even when the task that set it unwinds")
+def r11(cx):
+    """TaskManager::stop() sleeps in a loop until `memtable_running` / `level_running` are false.  The tasks set their
+    flag before calling into flush / compaction and clear it in straight-line code afterwards: a panic anywhere below
+    (an assert in the table writer, an arithmetic overflow on an unvalidated option) unwinds past the clearing store, the
+    task dies with the flag set, and close() -- also the one spawned by Drop -- never returns.  Decided: every task that
+    sets a flag polled by stop() clears it from a destructor (a guard value whose Drop stores `false`) or runs the work
+    under catch_unwind; or stop() does not poll the flag."""
+    f = cx.f
+    sb = f.coroutine_of("TaskManager::stop")
+    polled = set()
+    for c in sb.calls:
+        if c.bb in sb.live and c.primary.endswith("Atomic::load") and sb.in_cycle(c.bb):
+            o = origin_of_operand(sb, c.args[0], through_calls="all")
+            polled |= {x for x in (o.field_names() | {n.split("__")[-1] for n in o.upvar_names}) if x.endswith("_running")}
+    sleeps = [c for c in sb.calls if c.bb in sb.live and sb.in_cycle(c.bb) and c.primary.split("::")[-1] in ("sleep", "yield_now", "notified")]
+    cx.note("flags polled by TaskManager::stop in an unbounded loop: %s" % sorted(polled))
+    if not polled or not sleeps:
+        cx.ok("TaskManager::stop does not poll a task flag without bound", sb.where())
+        return
+    tb = f.body("TaskManager::new")
+    n = 0
+    for cb in f.closures_of(tb):
+        if cb.kind != "coroutine":
+            continue
+        sets = [c for c in cb.calls if c.bb in cb.live and c.primary.endswith("Atomic::store") and len(c.args) > 1 and const_value(c.args[1]) in (1, "1", True)]
+        work = cb.calls_to("CompactionOperations::compact_memtable", "CompactionOperations::compact")
+        if not sets or not work:
+            continue
+        n += 1
+        guarded = False
+        # (a) a guard value constructed in the task whose own Drop stores `false` into an atomic
+        for i, j, lhs, rv, line in cb.assigns():
+            if i in cb.live and rv[0] == "agg" and rv[3] and rv[3].get("adt"):
+                if _clears_flag_on_drop(f, rv[3]["adt"]):
+                    guarded = True
+        # (b) the work runs under catch_unwind
+        if any(c.bb in cb.live and c.primary.split("::")[-1] in ("catch_unwind",) for c in cb.calls):
+            guarded = True
+        cx.check(guarded, "`%s`: the polled `running` flag is cleared on unwind" % cb.id, "running-flag-survives-panic|%s" % work[0].primary.split("::")[-1], sets[0].where(),
+                 "the background task sets its `running` flag, calls `%s`, and clears the flag in straight-line code: if anything below panics the task dies with the flag "
+                 "set, and TaskManager::stop() -- which sleeps in a loop until the flag is false -- never returns: close() hangs" % work[0].primary.split("::")[-1])
+    cx.floor("background tasks that set a polled flag", n, 2)
